@@ -344,8 +344,10 @@ func c19OpenAPI3(m *sysl.Module, mode string, logger *logrus.Logger) (string, er
 }
 
 var c19SplitDb = map[string]string{
-	"main.sysl": "import a\nimport b\nimport c\n\nDb:\n    !table Root:\n        id <: int [~pk]\n",
-	"a.sysl":    "Db:\n    !table A1:\n        id <: int [~pk]\n        r <: Root.id\n    !table A2:\n        id <: int [~pk]\n        r <: Root.id\n",
+	// Customer: a table declared here and completed in a.sysl; its columns' lines and names are ordered differently
+	// (name before address by line, address < grade < name by name)
+	"main.sysl": "import a\nimport b\nimport c\n\nDb:\n    !table Root:\n        id <: int [~pk]\n    !table Customer:\n        cid <: int [~pk]\n        name <: string\n        address <: string\n        zip <: string\n",
+	"a.sysl":    "Db:\n    !table A1:\n        id <: int [~pk]\n        r <: Root.id\n    !table A2:\n        id <: int [~pk]\n        r <: Root.id\n    !table Customer:\n        grade <: string\n        born <: date\n        tier <: int\n",
 	"b.sysl":    "Db:\n    !table B1:\n        id <: int [~pk]\n        r <: Root.id\n    !table B2:\n        id <: int [~pk]\n        r <: Root.id\n",
 	"c.sysl":    "Db:\n    !table C1:\n        id <: int [~pk]\n        r <: Root.id\n    !table C2:\n        id <: int [~pk]\n        r <: Root.id\n",
 }
@@ -371,7 +373,7 @@ func runC19(res *Result, tier string, rnd *Rand, replay string) {
 	reps := 12
 	nGen := 4
 	if tier == "thorough" {
-		reps, nGen = 60, 40
+		reps, nGen = 30, 12
 	}
 	type model struct {
 		name, text string
@@ -566,7 +568,7 @@ func c19Importers(res *Result, tier string, logger *logrus.Logger) {
 	ireps := 2
 	synthReps := 8
 	if tier == "thorough" {
-		per, ireps, synthReps = 1000, 6, 30
+		per, ireps, synthReps = 40, 4, 20
 	}
 	for _, dir := range []string{"openapi3", "openapi2", "xsd"} {
 		files, _ := filepath.Glob(filepath.Join(repoRoot, "pkg/importer/tests", dir, "*"))
